@@ -107,6 +107,7 @@ def gen_perturbation(w, r, ir):
         kinds += ["block_attr", "block_attr", "block_kind_swap", "uuid_change"]
     if syms:
         kinds += ["sym_attr", "sym_attr", "sym_payload", "sym_payload"]
+    kinds += ["child_move", "child_exchange", "child_exchange"]
     kinds += ["child_add", "child_remove", "edge_add", "edge_remove", "edge_label", "ir_version", "ir_aux_key", "edge_reorder", "edge_reorder", "aux_reorder", "edge_add_remove"]
     k = pick(kinds)
     if k == "mod_attr":
@@ -278,6 +279,34 @@ def gen_perturbation(w, r, ir):
         if not ps:
             return None
         return (k + ":" + kind, [{"op": "new", "kind": kind, "label": w.fresh(kind), "uuid": r.getrandbits(128), "attrs": gen_own.gen_attrs(w, r, kind) if kind not in ("sym",) else {"name": V.name(r)}, "parent": pick(ps)}], True)
+    if k in ("child_move", "child_exchange"):
+        # the containment tree changes while every node keeps its content: one child moved to
+        # a sibling parent, or two children of two parents exchanged (child COUNTS unchanged)
+        from .world import PARENT_OF
+
+        groups = {}
+        for l in sub:
+            n = m.nodes[l]
+            if n.parent is not None and n.kind in PARENT_OF and n.kind != "mod":
+                groups.setdefault((m.nodes[n.parent].kind, n.kind if n.kind not in ("cb", "db") else "blk"), {}).setdefault(n.parent, []).append(l)
+        opts = []
+        for (pk, ck), byp in sorted(groups.items()):
+            sibs = [x for x in by(pk)]
+            if k == "child_move" and len(sibs) >= 2:
+                opts.append((pk, ck, byp))
+            if k == "child_exchange" and len(byp) >= 2:
+                opts.append((pk, ck, byp))
+        if not opts:
+            return None
+        pk, ck, byp = pick(opts)
+        if k == "child_move":
+            p1 = pick(sorted(byp))
+            p2 = pick([x for x in by(pk) if x != p1])
+            c1 = pick(byp[p1])
+            return (k + ":" + ck, [{"op": "setparent", "child": c1, "parent": p2}], True)
+        p1, p2 = r.sample(sorted(byp), 2)
+        c1, c2 = pick(byp[p1]), pick(byp[p2])
+        return (k + ":" + ck, [{"op": "setparent", "child": c1, "parent": p2}, {"op": "setparent", "child": c2, "parent": p1}], True)
     if k == "child_remove":
         cands = [l for l in sub if l != ir and not _referenced(m, ir, l) and not any(_referenced(m, ir, d) for d in m.subtree(l))]
         if not cands:
